@@ -446,6 +446,15 @@ var c07ConfigCorpus = []string{
 }
 
 func c07ConfigCase(p *c07Prog, class string) Case {
+	before := c07NoAnswer
+	c := c07ConfigCaseInner(p, class)
+	if len(c.KF) > 0 {
+		c07NoAnswer = before
+	}
+	return c
+}
+
+func c07ConfigCaseInner(p *c07Prog, class string) Case {
 	resp, over := c07Compile(p.Files, p.Root, "compile")
 	ir := c07IR(p.Files, p.Root)
 	c := Case{Class: class, Nontrivial: true, Key: p.Files[p.Root]}
@@ -523,10 +532,16 @@ func c07Variant() string {
 func c07ConfigCases(r *Rng, tier string, n int) []Case {
 	var out []Case
 	for _, s := range c07ConfigCorpus {
+		if c07GiveUp() {
+			break
+		}
 		p := &c07Prog{Root: "index.d2", Files: map[string]string{"index.d2": s + "\n"}, Feats: map[string]bool{"vars": true, "d2-config": true, "map": true}}
 		out = append(out, c07ConfigCase(p, "config-corpus"))
 	}
 	for len(out) < n {
+		if c07GiveUp() {
+			break
+		}
 		out = append(out, c07ConfigCase(c07ConfigProgram(r), "config-random"))
 	}
 	return out
